@@ -38,195 +38,7 @@ func runC20(c *Ctx) {
 		c.R.Fail("no federation configuration was materialised")
 		return
 	}
-	c.R.Rule("index-provenance", "stores into the entity result list are indexed by EntityWithIndex.index of the representation being answered, single-entity stores only on that representation's success edge; index is assigned only in buildRepresentationGroups from the range index", 3*len(feds))
-	for _, g := range feds {
-		pfx := "gen:" + g.Name + "/"
-		nst := 0
-		for _, fn := range c.genFuncs(g) {
-			top := topFn(fn)
-			if top.Name() != "resolveEntityGroup" && top.Name() != "resolveManyEntities" && top.Name() != "__resolve_entities" {
-				continue
-			}
-			for _, b := range fn.Blocks {
-				for _, in := range b.Instrs {
-					st, ok := in.(*ssa.Store)
-					if !ok {
-						continue
-					}
-					ia, ok := st.Addr.(*ssa.IndexAddr)
-					if !ok || !strings.HasSuffix(ia.X.Type().String(), "fedruntime.Entity") {
-						continue
-					}
-					nst++
-					how := ""
-					// the index may be a parameter of the goroutine's function literal: `go func(rep R, slot int){…}(reps[i].entity, reps[i].index)`
-					idx := ia.Index
-					if prm, isP := an.Strip(idx).(*ssa.Parameter); isP && fn.Parent() != nil {
-						if arg, elem := goArgOf(fn, prm); arg != nil {
-							// the representation handed to the same goroutine must come from the same element
-							same := false
-							for _, other := range fn.Params {
-								if other == prm {
-									continue
-								}
-								if _, e2 := goArgOf(fn, other); e2 != nil && elem != nil && sameElemAddr(e2, elem) {
-									same = true
-								}
-							}
-							if same {
-								idx = arg
-							}
-						}
-					}
-					// rep.index (value field or field address load)
-					if fld, ok := idx.(*ssa.Field); ok && fieldName2(fld) == "index" {
-						how = "rep.index"
-						// `rep := reps[i]` hoisted inside the loop over the batch result: still the positional form
-						if ld, ok := fld.X.(*ssa.UnOp); ok {
-							if ia2, ok := ld.X.(*ssa.IndexAddr); ok {
-								for _, d2 := range an.Defs(ia2.Index) {
-									if bo, ok := d2.(*ssa.BinOp); ok {
-										if p, ok := bo.X.(*ssa.Phi); ok && p.Comment == "rangeindex" {
-											how = "reps[i].index (positional zip with the batch result)"
-										}
-									}
-									if p, ok := d2.(*ssa.Phi); ok && (p.Comment == "rangeindex" || an.CanReach(p, p)) {
-										how = "reps[i].index (positional zip with the batch result)"
-									}
-								}
-							}
-						}
-					}
-					if fa, ok := loadAddr(idx).(*ssa.FieldAddr); ok && fieldNameOf(fa) == "index" && idx != ia.Index {
-						how = "rep.index"
-					} else if fa, ok := loadAddr(ia.Index).(*ssa.FieldAddr); ok && fieldNameOf(fa) == "index" {
-						how = "rep.index"
-						// `rep := reps[i]` kept in a local cell inside the loop over the batch result
-						if cell, ok := fa.X.(*ssa.Alloc); ok {
-							if sts := an.CellStores(cell); len(sts) == 1 {
-								if ld, ok := sts[0].Val.(*ssa.UnOp); ok {
-									if ia3, ok := ld.X.(*ssa.IndexAddr); ok {
-										for _, d3 := range an.Defs(ia3.Index) {
-											if bo, ok := d3.(*ssa.BinOp); ok {
-												if p, ok := bo.X.(*ssa.Phi); ok && p.Comment == "rangeindex" {
-													how = "reps[i].index (positional zip with the batch result)"
-												}
-											}
-											if p, ok := d3.(*ssa.Phi); ok && p.Comment == "rangeindex" {
-												how = "reps[i].index (positional zip with the batch result)"
-											}
-										}
-									}
-								}
-							}
-						}
-						if ia2, ok := fa.X.(*ssa.IndexAddr); ok {
-							// reps[i].index with i the range index over the resolver result
-							if phi, ok := ia2.Index.(*ssa.BinOp); ok {
-								if p, ok := phi.X.(*ssa.Phi); ok && p.Comment == "rangeindex" {
-									how = "reps[i].index (positional zip with the batch result)"
-								}
-							}
-							if p, ok := ia2.Index.(*ssa.Phi); ok && p.Comment == "rangeindex" {
-								how = "reps[i].index (positional zip with the batch result)"
-							}
-						}
-					}
-					key := pfx + top.Name() + "/store:list"
-					if how == "" {
-						c.R.Bad(key, c.ipos(st), "the entity result list is stored at an index that is not EntityWithIndex.index: the entity is answered at another representation's position")
-						continue
-					}
-					// single-entity form: success edge of the resolveEntity call whose result is stored
-					if how == "rep.index" {
-						okEdge := false
-						for _, d := range an.Defs(st.Val) {
-							if ex, isE := d.(*ssa.Extract); isE && ex.Index == 0 {
-								if call, isC := ex.Tuple.(*ssa.Call); isC {
-									for _, f := range an.Facts(st) {
-										if empty, k := an.EmptinessFact(f, func(v ssa.Value) bool {
-											cc := an.AllExtractOf(v, 1)
-											return cc != nil && cc == ssa.CallInstruction(call)
-										}); k && empty {
-											okEdge = true
-										}
-									}
-								}
-							}
-						}
-						c.R.Check(okEdge, key, c.ipos(st), "list[rep.index] = entity on the err == nil edge of its own resolveEntity call", "the entity is stored although (or regardless of whether) its resolution failed")
-					} else {
-						c.R.OK(key, c.ipos(st), how)
-					}
-				}
-			}
-		}
-		if nst == 0 {
-			c.R.Bad(pfx+"entities/store:list", g.Spec.Dir, "no store into the _entities result list found")
-		}
-		// writers of EntityWithIndex.index
-		nw := 0
-		for _, fn := range c.genFuncs(g) {
-			for _, b := range fn.Blocks {
-				for _, in := range b.Instrs {
-					st, ok := in.(*ssa.Store)
-					if !ok {
-						continue
-					}
-					fa, ok := st.Addr.(*ssa.FieldAddr)
-					if !ok || fieldNameOf(fa) != "index" || !an.NamedIs(fa.X.Type(), g.Path, "EntityWithIndex") {
-						continue
-					}
-					nw++
-					okW := topFn(fn).Name() == "buildRepresentationGroups"
-					// value is the range index
-					isRangeIdx := false
-					for _, d := range an.Defs(st.Val) {
-						if bo, ok := d.(*ssa.BinOp); ok && bo.Op == token.ADD {
-							if p, ok := bo.X.(*ssa.Phi); ok && p.Comment == "rangeindex" {
-								isRangeIdx = true
-							}
-						}
-						if p, ok := d.(*ssa.Phi); ok && p.Comment == "rangeindex" {
-							isRangeIdx = true
-						}
-					}
-					// the entity stored into the same literal is the element at that same index
-					sameRep := false
-					for _, r := range an.Referrers(fa.X) {
-						fa2, ok := r.(*ssa.FieldAddr)
-						if !ok || fieldNameOf(fa2) != "entity" {
-							continue
-						}
-						for _, r2 := range an.Referrers(fa2) {
-							st2, ok := r2.(*ssa.Store)
-							if !ok {
-								continue
-							}
-							for _, d := range an.Defs(st2.Val) {
-								// rep := representations[i]
-								v := an.Strip(d)
-								if cv, ok := v.(*ssa.ChangeType); ok {
-									v = cv.X
-								}
-								if ld, ok := v.(*ssa.UnOp); ok && ld.Op == token.MUL {
-									if ia, ok := ld.X.(*ssa.IndexAddr); ok && an.SameVar(ia.Index, st.Val) {
-										sameRep = true
-									}
-								}
-							}
-						}
-					}
-					c.R.Check(okW && isRangeIdx && sameRep, pfx+topFn(fn).Name()+"/store:EntityWithIndex.index", c.ipos(st), "index = range index of the representation stored beside it",
-						sprintf("EntityWithIndex.index is not the position of its representation (writer is buildRepresentationGroups: %v, value is the range index: %v, entity is the element at that index: %v)", okW, isRangeIdx, sameRep))
-				}
-			}
-		}
-		if nw == 0 {
-			c.R.Bad(pfx+"buildRepresentationGroups/store:EntityWithIndex.index", g.Spec.Dir, "EntityWithIndex.index is never assigned")
-		}
-	}
-
+	c20IndexProvenance(c, feds)
 	c.R.Rule("contained", "every call of an Entity resolver method is in a function that registered its own deferred recover first; that handler hands ec.Recover's error to the caller through the named error result; the goroutine that called resolveEntity / resolveManyEntities reports a non-nil error exactly once (ec.Error on the err != nil edge)", 2*len(feds))
 	for _, g := range feds {
 		pfx := "gen:" + g.Name + "/"
@@ -577,4 +389,197 @@ func sameElemAddr(a, b ssa.Value) bool {
 	ia, ok1 := a.(*ssa.IndexAddr)
 	ib, ok2 := b.(*ssa.IndexAddr)
 	return ok1 && ok2 && (ia.X == ib.X || an.SameVar(ia.X, ib.X)) && (ia.Index == ib.Index || an.SameExpr(ia.Index, ib.Index))
+}
+
+// c20IndexProvenance: shared with C06 (a result written at the wrong index is also a slot written by two goroutines).
+func c20IndexProvenance(c *Ctx, feds []*GenPkg) {
+	c.R.Rule("index-provenance", "stores into the entity result list are indexed by EntityWithIndex.index of the representation being answered, single-entity stores only on that representation's success edge; index is assigned only in buildRepresentationGroups from the range index", 3*len(feds))
+	for _, g := range feds {
+		pfx := "gen:" + g.Name + "/"
+		nst := 0
+		for _, fn := range c.genFuncs(g) {
+			top := topFn(fn)
+			if top.Name() != "resolveEntityGroup" && top.Name() != "resolveManyEntities" && top.Name() != "__resolve_entities" {
+				continue
+			}
+			for _, b := range fn.Blocks {
+				for _, in := range b.Instrs {
+					st, ok := in.(*ssa.Store)
+					if !ok {
+						continue
+					}
+					ia, ok := st.Addr.(*ssa.IndexAddr)
+					if !ok || !strings.HasSuffix(ia.X.Type().String(), "fedruntime.Entity") {
+						continue
+					}
+					nst++
+					how := ""
+					// the index may be a parameter of the goroutine's function literal: `go func(rep R, slot int){…}(reps[i].entity, reps[i].index)`
+					idx := ia.Index
+					if prm, isP := an.Strip(idx).(*ssa.Parameter); isP && fn.Parent() != nil {
+						if arg, elem := goArgOf(fn, prm); arg != nil {
+							// the representation handed to the same goroutine must come from the same element
+							same := false
+							for _, other := range fn.Params {
+								if other == prm {
+									continue
+								}
+								if _, e2 := goArgOf(fn, other); e2 != nil && elem != nil && sameElemAddr(e2, elem) {
+									same = true
+								}
+							}
+							if same {
+								idx = arg
+							}
+						}
+					}
+					// rep.index (value field or field address load)
+					if fld, ok := idx.(*ssa.Field); ok && fieldName2(fld) == "index" {
+						how = "rep.index"
+						// `rep := reps[i]` hoisted inside the loop over the batch result: still the positional form
+						if ld, ok := fld.X.(*ssa.UnOp); ok {
+							if ia2, ok := ld.X.(*ssa.IndexAddr); ok {
+								for _, d2 := range an.Defs(ia2.Index) {
+									if bo, ok := d2.(*ssa.BinOp); ok {
+										if p, ok := bo.X.(*ssa.Phi); ok && p.Comment == "rangeindex" {
+											how = "reps[i].index (positional zip with the batch result)"
+										}
+									}
+									if p, ok := d2.(*ssa.Phi); ok && (p.Comment == "rangeindex" || an.CanReach(p, p)) {
+										how = "reps[i].index (positional zip with the batch result)"
+									}
+								}
+							}
+						}
+					}
+					if fa, ok := loadAddr(idx).(*ssa.FieldAddr); ok && fieldNameOf(fa) == "index" && idx != ia.Index {
+						how = "rep.index"
+					} else if fa, ok := loadAddr(ia.Index).(*ssa.FieldAddr); ok && fieldNameOf(fa) == "index" {
+						how = "rep.index"
+						// `rep := reps[i]` kept in a local cell inside the loop over the batch result
+						if cell, ok := fa.X.(*ssa.Alloc); ok {
+							if sts := an.CellStores(cell); len(sts) == 1 {
+								if ld, ok := sts[0].Val.(*ssa.UnOp); ok {
+									if ia3, ok := ld.X.(*ssa.IndexAddr); ok {
+										for _, d3 := range an.Defs(ia3.Index) {
+											if bo, ok := d3.(*ssa.BinOp); ok {
+												if p, ok := bo.X.(*ssa.Phi); ok && p.Comment == "rangeindex" {
+													how = "reps[i].index (positional zip with the batch result)"
+												}
+											}
+											if p, ok := d3.(*ssa.Phi); ok && p.Comment == "rangeindex" {
+												how = "reps[i].index (positional zip with the batch result)"
+											}
+										}
+									}
+								}
+							}
+						}
+						if ia2, ok := fa.X.(*ssa.IndexAddr); ok {
+							// reps[i].index with i the range index over the resolver result
+							if phi, ok := ia2.Index.(*ssa.BinOp); ok {
+								if p, ok := phi.X.(*ssa.Phi); ok && p.Comment == "rangeindex" {
+									how = "reps[i].index (positional zip with the batch result)"
+								}
+							}
+							if p, ok := ia2.Index.(*ssa.Phi); ok && p.Comment == "rangeindex" {
+								how = "reps[i].index (positional zip with the batch result)"
+							}
+						}
+					}
+					key := pfx + top.Name() + "/store:list"
+					if how == "" {
+						c.R.Bad(key, c.ipos(st), "the entity result list is stored at an index that is not EntityWithIndex.index: the entity is answered at another representation's position")
+						continue
+					}
+					// single-entity form: success edge of the resolveEntity call whose result is stored
+					if how == "rep.index" {
+						okEdge := false
+						for _, d := range an.Defs(st.Val) {
+							if ex, isE := d.(*ssa.Extract); isE && ex.Index == 0 {
+								if call, isC := ex.Tuple.(*ssa.Call); isC {
+									for _, f := range an.Facts(st) {
+										if empty, k := an.EmptinessFact(f, func(v ssa.Value) bool {
+											cc := an.AllExtractOf(v, 1)
+											return cc != nil && cc == ssa.CallInstruction(call)
+										}); k && empty {
+											okEdge = true
+										}
+									}
+								}
+							}
+						}
+						c.R.Check(okEdge, key, c.ipos(st), "list[rep.index] = entity on the err == nil edge of its own resolveEntity call", "the entity is stored although (or regardless of whether) its resolution failed")
+					} else {
+						c.R.OK(key, c.ipos(st), how)
+					}
+				}
+			}
+		}
+		if nst == 0 {
+			c.R.Bad(pfx+"entities/store:list", g.Spec.Dir, "no store into the _entities result list found")
+		}
+		// writers of EntityWithIndex.index
+		nw := 0
+		for _, fn := range c.genFuncs(g) {
+			for _, b := range fn.Blocks {
+				for _, in := range b.Instrs {
+					st, ok := in.(*ssa.Store)
+					if !ok {
+						continue
+					}
+					fa, ok := st.Addr.(*ssa.FieldAddr)
+					if !ok || fieldNameOf(fa) != "index" || !an.NamedIs(fa.X.Type(), g.Path, "EntityWithIndex") {
+						continue
+					}
+					nw++
+					okW := topFn(fn).Name() == "buildRepresentationGroups"
+					// value is the range index
+					isRangeIdx := false
+					for _, d := range an.Defs(st.Val) {
+						if bo, ok := d.(*ssa.BinOp); ok && bo.Op == token.ADD {
+							if p, ok := bo.X.(*ssa.Phi); ok && p.Comment == "rangeindex" {
+								isRangeIdx = true
+							}
+						}
+						if p, ok := d.(*ssa.Phi); ok && p.Comment == "rangeindex" {
+							isRangeIdx = true
+						}
+					}
+					// the entity stored into the same literal is the element at that same index
+					sameRep := false
+					for _, r := range an.Referrers(fa.X) {
+						fa2, ok := r.(*ssa.FieldAddr)
+						if !ok || fieldNameOf(fa2) != "entity" {
+							continue
+						}
+						for _, r2 := range an.Referrers(fa2) {
+							st2, ok := r2.(*ssa.Store)
+							if !ok {
+								continue
+							}
+							for _, d := range an.Defs(st2.Val) {
+								// rep := representations[i]
+								v := an.Strip(d)
+								if cv, ok := v.(*ssa.ChangeType); ok {
+									v = cv.X
+								}
+								if ld, ok := v.(*ssa.UnOp); ok && ld.Op == token.MUL {
+									if ia, ok := ld.X.(*ssa.IndexAddr); ok && an.SameVar(ia.Index, st.Val) {
+										sameRep = true
+									}
+								}
+							}
+						}
+					}
+					c.R.Check(okW && isRangeIdx && sameRep, pfx+topFn(fn).Name()+"/store:EntityWithIndex.index", c.ipos(st), "index = range index of the representation stored beside it",
+						sprintf("EntityWithIndex.index is not the position of its representation (writer is buildRepresentationGroups: %v, value is the range index: %v, entity is the element at that index: %v)", okW, isRangeIdx, sameRep))
+				}
+			}
+		}
+		if nw == 0 {
+			c.R.Bad(pfx+"buildRepresentationGroups/store:EntityWithIndex.index", g.Spec.Dir, "EntityWithIndex.index is never assigned")
+		}
+	}
+
 }
